@@ -15,7 +15,7 @@ type G struct {
 	NoCalls bool
 }
 
-var realTexts = []string{"1.5", "0.5", ".5", "2.25", "10.0", "1e3", "1.5e-3", "2.5e2", "-2.5", "-0.5", "100.75", "0.1", "3.0", "9007199254740993.0", "1e19", "0.0", "-1e10", "16777217.0", "1.e2", ".25e1"}
+var realTexts = []string{"1.5", "0.5", ".5", "2.25", "10.0", "1.0", "1.0", "0.0", "1e3", "1.5e-3", "2.5e2", "-2.5", "-0.5", "100.75", "0.1", "3.0", "9007199254740993.0", "1e19", "0.0", "-1e10", "16777217.0", "1.e2", ".25e1"}
 
 func (g *G) intLit() *Lit {
 	var v int64
@@ -297,6 +297,13 @@ func (g *G) Bool(d int) Expr {
 	}
 	if g.R.Intn(16) == 0 {
 		return g.mixedPair()
+	}
+	if g.R.Intn(30) == 0 {
+		// values of NAMED string / bool types compare like their kind
+		if g.R.Intn(2) == 0 {
+			return &Bin{Op: cmpOps[g.R.Intn(6)], L: &Ref{"H.Nm"}, R: g.strLit()}
+		}
+		return &Bin{Op: cmpOps[g.R.Intn(2)], L: g.boolLit(), R: &Ref{"H.Fl"}}
 	}
 	switch g.R.Intn(10) {
 	case 0, 1, 2, 3:
